@@ -535,7 +535,10 @@ l1:
 		// try found status from exploring
 		status := c.getExploreResult(h)
 		if status != nil {
-			ret[h] = status
+			// a copy: the object belongs to the explorer. The status of a cycle is merged with what the other
+			// replicas report and changed by assignments and transfers, none of that must reach the explorer
+			cp := *status
+			ret[h] = &cp
 		} else {
 			ret[h] = target.NewScrapeStatus(0, 0)
 		}
